@@ -266,6 +266,17 @@ pub fn write_ink_list(list: &InkList) -> serde_json::Value {
 
     jobj.insert("list".to_owned(), serde_json::Value::Object(jlist));
 
+    // An empty list has no items to tell which list(s) it belongs to
+    if list.items.is_empty() {
+        let mut origin_names = list.get_origin_names();
+        origin_names.sort();
+        origin_names.dedup();
+
+        if !origin_names.is_empty() {
+            jobj.insert("origins".to_owned(), json!(origin_names));
+        }
+    }
+
     serde_json::Value::Object(jobj)
 }
 
